@@ -1,7 +1,7 @@
 """C04 — simulation-based check (real executor code on the simulated kernel) + monitors."""
 from checks import simcommon as S
 
-FAMILIES = ['plain', 'full', 'timeout', 'shutdown']
+FAMILIES = ['plain', 'full', 'timeout', 'shutdown', 'callback']
 PER_FAMILY = (300, 6000)
 
 
